@@ -4,6 +4,7 @@ import (
 	"fmt"
 	"html/template"
 	"math"
+	"net"
 	"reflect"
 	"strings"
 
@@ -376,6 +377,8 @@ func c19Run(b *core.B) {
 		// a string is a string whatever its type is called; named slice / map types; pointers to them
 		{template.HTML("<b>x</b>"), 8}, {namedStr("named"), 5}, {c19PtrTo(namedStr("pn")), 2}, {c19PtrTo("plain"), 5}, {c19PtrTo(template.HTML("é")), 2},
 		{c19Ints{1, 2, 3}, 3}, {c19Map{"a": 1}, 1}, {&c19Ints{4}, 1}, {[]namedStr{"a", "b"}, 2}, {[2]template.HTML{}, 2},
+		// ... also when the type has methods of its own (String, HTML, Error): the length is that of the value, not of a text
+		{c19Tags{"go", "web", "x"}, 3}, {&c19Tags{"go"}, 1}, {net.IP{10, 0, 0, 1}, 4}, {c19Set{"a": true, "b": true}, 2}, {c19Word("hello"), 5}, {c19Pair{1, 2}, 2}, {c19Errs{"e1"}, 1},
 	}
 	for _, c := range lens {
 		if !mine() || !b.Begin(fmt.Sprintf("len(%#v)", c.v)) {
@@ -543,3 +546,25 @@ func init() {
 		Exhaustive: func(core.Tier) bool { return true },
 	})
 }
+
+type c19Tags []string
+
+func (t c19Tags) String() string {
+	return "tags:" + strings.Join(t, "+") + " (a text of another length)"
+}
+
+type c19Set map[string]bool
+
+func (s c19Set) String() string { return "a set with some members in it" }
+
+type c19Word string
+
+func (w c19Word) String() string { return "the word " + string(w) }
+
+type c19Pair [2]int
+
+func (p c19Pair) HTML() template.HTML { return "<i>pair of two numbers</i>" }
+
+type c19Errs []string
+
+func (e c19Errs) Error() string { return "several errors happened here" }
